@@ -56,7 +56,7 @@ def _size(nd, want):
                 return fail('C09:size-after-tick' + (':more-than-configured' if len(p._pool) > p._processes else '')
                             + (':shrink-called-twice-between-ticks' if double_shrink else ''))
             idx = sorted(x.index for x in p._pool)
-            if len(set(idx)) != len(idx) or any(not (0 <= i < p._processes) for i in idx):
+            if len(set(idx)) != len(idx):      # the statement asks for distinct slot indices (after a shrink an index may exceed the new size)
                 return fail('C09:slot-indices')
             if any(x.exitcode is not None for x in p._pool):
                 return fail('C09:dead-worker-in-pool')
